@@ -1055,7 +1055,7 @@ package flyt
 //@     requires [C11] *binding(task, "runBatchConcurrent$1", 5) == ctx && *binding(task, "runBatchConcurrent$1", 6) == node
 //@     effect i = i
 //@   on call (*WorkerPool).Wait(p)
-//@     requires [C06,C12] p == pool && i == len(items) && !waited
+//@     requires [C06,C07,C09,C11] p == pool && i == len(items) && !waited
 //@     effect waited = true
 //@   on call (*WorkerPool).Close(p)
 //@     requires [C12] p == pool && waited && !closedPool && inDefers
@@ -1066,7 +1066,8 @@ package flyt
 //@   loop 1 invariant !closed(pool.tasks) && !closed(pool.done)
 //@   loop 1 invariant pool.tasks != pool.done && pool.tasks != nil && pool.done != nil && allocated(pool.tasks) && allocated(pool.done)
 //@   loop 1 decreases [C06] len(items) - i
-//@   ensures [C06,C12] waited && closedPool && i == len(items)
+//@   ensures [C06,C12] waited && closedPool
+//@   ensures [C06,C07,C09,C11] i == len(items)
 //@   ensures-by L3 [C06] forall j int :: 0 <= j && j < len(items) ==> items[j] == old(items[j])
 
 // ---------------------------------------------------------------------------
